@@ -20,6 +20,8 @@ class Scen(CompScenario):
         self.top.add("dut", self.dut)
         self.caller("write", self.dut.write)
         self.caller("read", self.dut.read)
+        if c.get("twin"):
+            self.twin("read", self.dut.read)
         self.caller("peek", self.dut.peek)
         self.caller("clear", self.dut.clear)
         if c.get("peek2"):  # a second, independent caller of peek (simultaneous calls of one method)
@@ -59,6 +61,7 @@ class Scen(CompScenario):
         }
         if self.cfg.get("peek2"):
             stim["peek2.en"] = int(rng.random() < max(pp, 0.5))
+        self.twin_stim(rng, stim)
         self.tag += 1
         for k, f in enumerate(self.fields):
             name = f"write.i.{f}"
@@ -68,6 +71,7 @@ class Scen(CompScenario):
 
     # ---- oracle -----------------------------------------------------------------------------
     def check(self, cyc, stim, obs):
+        stim, obs = self.fold_twins(stim, obs)
         depth, st = self.depth, self.st
         level = len(st)
         nonempty, notfull = level > 0, level < depth
@@ -172,7 +176,7 @@ class Prop(PropBase):
         cycles = rng.randint(80, 400 if big else 240)
         kinds = ["random", "random", "fill", "drain", "pingpong", "swap", "flush", "flush", "idle"]
         return {"depth": depth, "layout": layout, "cycles": cycles, "sched": rng.choice(["eager", "eager", "rr"]),
-                "peek2": int(rng.random() < 0.35),
+                "peek2": int(rng.random() < 0.35), "twin": int(rng.random() < 0.3),
                 "plan": make_plan(rng, cycles, kinds, min_len=4, max_len=32)}
 
     def make(self, cfg):
@@ -182,7 +186,7 @@ class Prop(PropBase):
         return {"port": (viol.get("info") or {}).get("port")}
 
     def cfg_signature(self, cfg):
-        return [cfg["depth"], cfg["layout"], cfg["sched"], cfg.get("peek2", 0)]
+        return [cfg["depth"], cfg["layout"], cfg["sched"], cfg.get("peek2", 0), cfg.get("twin", 0)]
 
     def shrink_cfg(self, cfg):
         for d in (1, 2, cfg["depth"] // 2, cfg["depth"] - 1):
